@@ -8,7 +8,7 @@ use serde_json::{Value as J, json};
 
 const RULE: &str = "generated chain programs with EXTERNAL e0() / e1(a) / e2(a,b) (each with an Ink fallback function of \
 the same name) called in every syntactic position: logic line before a line (= first statement after the \
-previous line end), inside line text, inside a string literal assigned to a variable, as an argument of \
+previous line end), at the start of a tag on a line of its own, inside line text, inside a string literal assigned to a variable, as an argument of \
 another call, in a conditional test, inside an Ink function, after glue, in choice text and in a choice \
 condition; arguments are unique per site (literals and a running global), so the by-construction reference \
 knows the exact call sequence, the arguments, the text each line must show, and how many lines precede each \
@@ -100,6 +100,13 @@ fn gen_prog(t: &mut Tape, allow_string_calls: bool) -> Prog {
             calls.push((c.clone(), lines.len(), true, true));
             sv_part = Some(c);
             has_string_calls = true;
+        }
+        // a tag on a line of its own that starts with a call: the first thing evaluated after
+        // the previous line end, inside tag brackets (not string evaluation)
+        if t.chance(1, 4) {
+            let c = mk(t, &mut uniq);
+            src.push_str(&format!("# {{{}}}_t\n", call_src(&c)));
+            calls.push((c, lines.len(), i > 0, false));
         }
         let mut parts = vec![LinePart::Text(format!("Line {i}"))];
         let mut line_src = format!("Line {i}");
